@@ -244,7 +244,10 @@ def run_hist(mod, lib, case, root, canon, datadir):
             if got == want:
                 # meta flags, pre-tasks, init tasks and sharing; not the `task` link (submit() makes a submitted task its own producer)
                 try:
-                    S.pair_walk(rootobj, loaded, S.cfg_view, S.cfg_view, S.is_cfg, links=("meta", "pre", "init"))
+                    def data_eq(x, y, at):
+                        if jp / Path(x) != jp / Path(y):
+                            raise S.Differ("value", f"{at}: data path {x} vs {y}")
+                    S.pair_walk(rootobj, loaded, S.cfg_view, S.cfg_view, S.is_cfg, links=("meta", "pre", "init"), data_eq=data_eq)
                 except S.Differ as d:
                     diffs.append((d.kind, d.what))
             if got != want:
